@@ -151,7 +151,7 @@ fn check_table() -> Result<(), String> {
 
 pub fn run(ctx: &Ctx) -> Report {
     let mut rep = Report::new(
-        "Exhaustive enumeration: (0) web_atoms::NAMED_ENTITIES vs the frozen Python html.entities.html5 table (every name, every proper prefix, nothing extra); (1) each of the 2231 names and each name truncated by one character x {63 alphanumeric-or-semicolon extensions, 18 other followers incl. EOF, = & < space LF CR NUL quotes # and a following reference} x {data, RCDATA, double-quoted, single-quoted, unquoted attribute value} through html5ever's tokenizer, expected output from the reference character-reference algorithm (longest match over the frozen table, legacy attribute exception, missing-semicolon rule) and directly from the table for exact ';'-terminated names; (2) numeric references: every value 0..=0x110000 as hex with ';' in text, the other forms (decimal, without ';', attribute context, upper-case X) on a stride (quick 1/16, thorough every value), overflow digit strings of 1..24 digits, leading zeros, digit-less '&#'/'&#x' with followers; (3) every ';'-terminated name through xml5ever's tokenizer. Non-trivial: every case is a character-reference case; distinct by (context, text).",
+        "Exhaustive enumeration: (0) web_atoms::NAMED_ENTITIES vs the frozen Python html.entities.html5 table (every name, every proper prefix, nothing extra); (1) each of the 2231 names and each name truncated by one character x {63 alphanumeric-or-semicolon extensions, 18 other followers incl. EOF, = & < space LF CR NUL quotes # and a following reference} x {data, RCDATA, double-quoted, single-quoted, unquoted attribute value} through html5ever's tokenizer, expected output from the reference character-reference algorithm (longest match over the frozen table, legacy attribute exception, missing-semicolon rule) and directly from the table for exact ';'-terminated names; (2) numeric references: every value 0..=0x110000 as hex with ';' in text, the other forms (decimal, without ';', attribute context, upper-case X) on a stride (quick 1/16, thorough every value), overflow digit strings of 1..24 digits, every value within 130 of 2^k (k up to 65), 10^k and 0x10FFFF in decimal and hex (plus trailing digits / leading zeros), leading zeros, name-character runs of length 2^k-1..2^k+2 up to 2^16 after '&', after a complete entity name and as leading zeros of numeric references, digit-less '&#'/'&#x' with followers; (3) every ';'-terminated name through xml5ever's tokenizer. Non-trivial: every case is a character-reference case; distinct by (context, text).",
     );
     rep.assume("frozen entity table = Python 3 html.entities.html5 (2231 names, identical to the WHATWG table)");
     report_known(ctx, &mut rep, &|v| replay(&ctx.strict_clone(), v));
@@ -269,6 +269,55 @@ pub fn run(ctx: &Ctx) -> Report {
             extra.push(Case { ctx: cx.to_string(), text: format!("&#4294967361{f}") }); // 2^32+65
             extra.push(Case { ctx: cx.to_string(), text: format!("&#x100000041{f}") });
             extra.push(Case { ctx: cx.to_string(), text: format!("&#18446744073709551681{f}") }); // 2^64+65
+        }
+    }
+    // values around every place an accumulator can wrap or saturate: 2^k and 10^k (+-130), and
+    // the decimal strings that first exceed u32 in the final addition rather than the multiplication
+    let mut pivots: Vec<u128> = vec![];
+    for k in [7u32, 8, 15, 16, 20, 21, 24, 31, 32, 33, 36, 40, 48, 63, 64, 65] {
+        pivots.push(1u128 << k);
+    }
+    for k in [5u32, 6, 7, 9, 10, 11, 19, 20, 21] {
+        pivots.push(10u128.pow(k));
+    }
+    pivots.push(0x10FFFF);
+    pivots.push(0x110000);
+    let deltas: Vec<i128> = (-130i128..=130).collect();
+    for cx in ["data", "dq"] {
+        for pv in &pivots {
+            for d in &deltas {
+                let v = *pv as i128 + *d;
+                if v < 0 {
+                    continue;
+                }
+                extra.push(Case { ctx: cx.to_string(), text: format!("&#{v};") });
+                extra.push(Case { ctx: cx.to_string(), text: format!("&#x{v:x};") });
+                if d.rem_euclid(16) == 0 {
+                    extra.push(Case { ctx: cx.to_string(), text: format!("&#{v}0;") });
+                    extra.push(Case { ctx: cx.to_string(), text: format!("&#{v}65") });
+                    extra.push(Case { ctx: cx.to_string(), text: format!("&#x{v:X}41;") });
+                    extra.push(Case { ctx: cx.to_string(), text: format!("&#000{v};") });
+                }
+            }
+        }
+    }
+    // long names: a run of name characters of every length around 2^k up to 2^16 (buffers,
+    // strides, caps), that matches no entity / follows a complete entity name / is all digits
+    for cx in CTXS {
+        for k in [4u32, 5, 6, 7, 8, 10, 12, 13, 14, 16] {
+            for d in [-1i64, 0, 1, 2] {
+                let n = ((1i64 << k) + d) as usize;
+                let run: String = (0..n).map(|i| ALNUM.as_bytes()[(i * 7 + 3) % 62] as char).collect();
+                for f in [";tail", "=1", " x", "", "<b>", "&amp;"] {
+                    extra.push(Case { ctx: cx.to_string(), text: format!("&zq{run}{f}") });
+                    extra.push(Case { ctx: cx.to_string(), text: format!("&amp{run}{f}") });
+                    extra.push(Case { ctx: cx.to_string(), text: format!("&notin{run}{f}") });
+                    if k <= 12 {
+                        extra.push(Case { ctx: cx.to_string(), text: format!("&#{}{f}", "0".repeat(n) + "65") });
+                        extra.push(Case { ctx: cx.to_string(), text: format!("&#x{}{f}", "0".repeat(n) + "41") });
+                    }
+                }
+            }
         }
     }
     let out = run_exhaustive(extra.len() as u64, |i, st| {
